@@ -164,7 +164,14 @@ func ruleQU() Rule {
 					}
 				case *ast.CallExpr:
 					if fo := core.StaticCallee(info, n); fo != nil {
-						calls = append(calls, fo.Name())
+						switch c.P.FuncOf(fo) {
+						case c.fn("parser.(*lexer).read"):
+							calls = append(calls, "read")
+						case c.fn("parser.(*lexer).error"):
+							calls = append(calls, "error")
+						default:
+							calls = append(calls, fo.Name())
+						}
 						if fo.Name() == "WriteRune" {
 							writes = true
 						}
@@ -226,8 +233,13 @@ func ruleSP() Rule {
 					case *ast.SliceExpr:
 						cuts = true
 					case *ast.AssignStmt:
-						if len(x.Lhs) == 1 && exprStr(x.Lhs[0]) == "ws" && exprStr(x.Rhs[0]) == "false" {
-							clearsWS = true
+						// the white-space state: a boolean local set to false here
+						if len(x.Lhs) == 1 && len(x.Rhs) == 1 && exprStr(x.Rhs[0]) == "false" {
+							if id, ok := x.Lhs[0].(*ast.Ident); ok {
+								if v, ok := info.Uses[id].(*types.Var); ok && !v.IsField() && v.Type().String() == "bool" {
+									clearsWS = true
+								}
+							}
 						}
 					}
 					return true
